@@ -297,6 +297,60 @@ func c16(c *Ctx) {
 			r.Fail("R3.release-once", "ReleasePermit.Release action", p.Pos(relFn.Pos()), "Release neither invokes a stored action nor gives the slot back")
 		}
 	}
+	// the released flag is a one-way latch: nothing re-arms it (a permit object that becomes live
+	// again is shared by two acquisitions: the late Release of the first frees the slot of the second)
+	{
+		nlatch := 0
+		for _, fn := range p.ModuleFuncs() {
+			core.Calls(fn, func(ci ssa.CallInstruction) {
+				id := core.CalleeID(ci)
+				if !strings.HasPrefix(id, "sync/atomic.(*Bool).") || len(ci.Common().Args) == 0 {
+					return
+				}
+				t, f, _, ok := core.FieldRef(ci.Common().Args[0])
+				if !ok || t != "ReleasePermit" || f != "released" {
+					return
+				}
+				nlatch++
+				a := ci.Common().Args
+				okOp := false
+				switch strings.TrimPrefix(id, "sync/atomic.(*Bool).") {
+				case "Load":
+					okOp = true
+				case "CompareAndSwap":
+					o, okO := core.ConstBool(a[1])
+					n, okN := core.ConstBool(a[2])
+					okOp = okO && okN && !o && n
+				case "Swap", "Store":
+					n, okN := core.ConstBool(a[1])
+					okOp = okN && n
+				}
+				r.Check(okOp, "R3.release-once", fmt.Sprintf("%s released-latch #%d", core.FuncName(fn), nlatch), p.Pos(ci.Pos()),
+					"the released flag only ever goes from false to true", "the released flag of a permit is re-armed (set back to false): a permit object that is handed out again while an earlier holder still has a reference lets that holder's late Release free a slot it does not own")
+			})
+		}
+		// and Release does not hand its own object to anything (a pool, a list) that could give it out again
+		if relFn != nil {
+			recv := relFn.Params[0]
+			leaks := false
+			core.Calls(relFn, func(ci ssa.CallInstruction) {
+				for i, a := range ci.Common().Args {
+					if core.Derives(a, func(v ssa.Value) bool { return v == ssa.Value(recv) }, core.DeriveOpts{}) {
+						// passing &p.released / p.limit (fields) to atomic / semaphore methods is fine: only the object itself counts
+						if mi, ok := a.(*ssa.MakeInterface); ok && mi.X == ssa.Value(recv) {
+							leaks = true
+						}
+						if a == ssa.Value(recv) && !(i == 0 && ci.Common().IsInvoke()) {
+							if f := core.StaticCalleeFn(ci); f == nil || !core.InModule(f) {
+								leaks = true
+							}
+						}
+					}
+				}
+			})
+			r.Check(!leaks, "R3.release-once", "ReleasePermit.Release keeps-its-object", p.Pos(relFn.Pos()), "Release does not hand the permit object to anything that could give it out again", "Release publishes its own object (e.g. puts it into a pool) while other holders may still call Release on it")
+		}
+	}
 	for _, fn := range p.ModuleFuncs() {
 		for _, ci := range core.CallsTo(fn, semRelease) {
 			key := core.FuncName(fn) + " semaphore.Release"
@@ -321,6 +375,9 @@ func c16(c *Ctx) {
 					}
 					if !okW {
 						okAll = false
+					}
+					if !w.Init {
+						okW = false // the permit object is not a fresh one (recycled / shared): two acquisitions can hold the same object
 					}
 					r.Check(okW, "R3.release-once", core.FuncName(w.Fn)+" permit-holds-acquired-semaphore", p.Pos(w.Store.Pos()), "the permit holds the semaphore this wrapper took the same weight from, and is built only after the acquisition succeeded", "a permit can give a slot back to a semaphore it was not taken from, with another weight, or without having been taken")
 				}
